@@ -7,6 +7,7 @@ model of the property statement. `MemFs` (Model/MemFs.lean) and `DirFs` over the
 package filesys (canonical text, system calls with evaluated flags) to what they were written from.
 -/
 import GooseVerif.Lemmas.MemFs
+import GooseVerif.Lemmas.DirFs
 import GooseVerif.Model.DirFs
 import GooseVerif.Gen.FsFacts
 import GooseVerif.Expected.FsFacts
@@ -112,5 +113,114 @@ example : (Ref.empty.run
     = [.ok, .fd 0, .ok, .fd 1, .bytes [2, 3], .ok, .bytes [1, 2]] := by decide
 example : (MemFs.empty.run ([.mkdir "d", .create "d" "a", .append 0 [1, 2, 3], .open_ "d" "a", .readAt 1 1 5].map shiftOp)).2
     = [.ok, .fd 1, .ok, .fd 2, .bytes [2, 3]] := by decide
+
+/-! ### DirFs refines the reference model (helpers: `Lemmas/DirFs.lean`)
+
+The simulation relation is `Lemmas.DirFs.DirSim`: inode numbers and inode contents are equal on
+both sides (both allocate one inode per successful Create and one per AtomicCreate; an undisturbed
+AtomicCreate leaves no temporary file behind, so its inode is always brand new), the entries of a
+directory are the reference model's entries of that directory, descriptors are numbered by creation
+index on both sides: no renaming at all.
+
+One hypothesis beyond validity: the history hands out at most `internalFd` = 2^32 descriptors
+(`(Ref.empty.run ops).1.nfds ≤ internalFd`; implied by `ops.length ≤ internalFd`). The model of
+`AtomicCreate` opens its temporary file in the descriptor slot `internalFd`; a client descriptor
+with that very number would be overwritten and closed by it (`internalFd_bound_needed` below), so
+without the bound the statement is false for the model `Os` as written. -/
+
+open GooseVerif.Lemmas.DirFs in
+/-- DirFs refines the reference model: on every valid history (no documented precondition is
+violated) that hands out at most 2^32 descriptors, the directory-backed file system, as the system
+calls it issues over the OS model (AtomicCreate undisturbed), returns exactly the reference model's
+replies. No renaming of descriptors. -/
+theorem dirfs_refines (ops : List Op) (hv : Ref.valid Ref.empty ops = true)
+    (hfd : (Ref.empty.run ops).1.nfds ≤ internalFd) :
+    (DirFs.run Os.empty ops).2 = (Ref.empty.run ops).2 := by
+  have h : ∀ o ∈ (Ref.empty.run ops).2, o ≠ .invalid := by
+    intro o ho heq
+    simp only [Ref.valid, Bool.not_eq_true', List.contains_eq_mem, decide_eq_false_iff_not] at hv
+    exact hv (heq ▸ ho)
+  exact (dir_run_sim ops _ _ dirSim_empty hfd h).1
+
+/- The statement without the bound,
+     theorem dirfs_refines' (ops : List Op) (hv : Ref.valid Ref.empty ops = true) :
+         (DirFs.run Os.empty ops).2 = (Ref.empty.run ops).2
+   does not hold for `Model/DirFs.lean` as written: see `internalFd_bound_needed`. It would hold
+   if the internal descriptor of `acRun` were taken outside the range of client descriptors
+   (e.g. a separate slot in `Os`), which is a change of the model, not of this proof. -/
+
+open GooseVerif.Lemmas.DirFs in
+/-- The bound in the form "the history has at most 2^32 operations". -/
+theorem dirfs_refines_of_length (ops : List Op) (hv : Ref.valid Ref.empty ops = true)
+    (hlen : ops.length ≤ internalFd) :
+    (DirFs.run Os.empty ops).2 = (Ref.empty.run ops).2 := by
+  apply dirfs_refines ops hv
+  have := ref_nfds_run_le Ref.empty ops
+  simp only [Ref.empty, Nat.zero_add] at this
+  exact Nat.le_trans this hlen
+
+/-- The final states are related too (`DirSim`), in particular every name holds the same contents
+on both sides and the root directory holds no leftover temporary file. -/
+theorem dirfs_final_related (ops : List Op) (hv : Ref.valid Ref.empty ops = true)
+    (hfd : (Ref.empty.run ops).1.nfds ≤ internalFd) :
+    Lemmas.DirFs.DirSim (Ref.empty.run ops).1 (DirFs.run Os.empty ops).1 := by
+  have h : ∀ o ∈ (Ref.empty.run ops).2, o ≠ .invalid := by
+    intro o ho heq
+    simp only [Ref.valid, Bool.not_eq_true', List.contains_eq_mem, decide_eq_false_iff_not] at hv
+    exact hv (heq ▸ ho)
+  exact (Lemmas.DirFs.dir_run_sim ops _ _ Lemmas.DirFs.dirSim_empty hfd h).2
+
+/-- MemFs and DirFs agree: on every valid history (at most 2^32 descriptors) they return the same
+replies, up to the descriptor renaming `k ↦ k+1` of `memfs_refines`. -/
+theorem dirfs_memfs_agree (ops : List Op) (hv : Ref.valid Ref.empty ops = true)
+    (hfd : (Ref.empty.run ops).1.nfds ≤ internalFd) :
+    (MemFs.empty.run (ops.map shiftOp)).2 = (DirFs.run Os.empty ops).2.map shiftOut := by
+  rw [memfs_refines ops hv, dirfs_refines ops hv hfd]
+
+/-- The bound on descriptors is needed by the model: two states related by the simulation relation
+(all invariants included) where the client descriptor `internalFd` is open; after an AtomicCreate
+the reference model still reads through it, `DirFs` over `Os` panics (the slot was reused for the
+temporary file and closed). -/
+theorem internalFd_bound_needed :
+    Lemmas.DirFs.DirSim Lemmas.DirFs.collisionRef Lemmas.DirFs.collisionOs ∧
+    (Lemmas.DirFs.collisionRef.run [.atomic "d" "b" [], .readAt internalFd 0 1]).2 = [.ok, .bytes [7]] ∧
+    (DirFs.run Lemmas.DirFs.collisionOs [.atomic "d" "b" [], .readAt internalFd 0 1]).2 = [.ok, .panic] :=
+  ⟨Lemmas.DirFs.collision_related, by decide, by decide⟩
+
+/-! ### non-vacuity of the DirFs theorems
+
+A valid history with mkdir, create, append, close, open, readAt, link, atomic, list, delete; the
+replies of the three models are computed. (`List` sorts with `List.mergeSort`, which does not
+evaluate by `decide`; the expected replies keep `sortNames` applied to a literal and the two sorted
+lists are computed separately.) -/
+
+def demoOps : List Op :=
+  [.mkdir "d", .create "d" "a", .append 0 [1, 2, 3], .close 0, .open_ "d" "a", .readAt 1 1 5,
+   .link "d" "a" "d" "b", .atomic "d" "a" [9], .list "d", .readAt 1 0 2, .delete "d" "a",
+   .open_ "d" "b", .readAt 2 0 3, .list "d", .create "d" "b", .link "d" "b" "d" "b"]
+
+def demoOut : List Out :=
+  [.ok, .fd 0, .ok, .ok, .fd 1, .bytes [2, 3], .bool true, .ok, .names (sortNames ["a", "b"]),
+   .bytes [1, 2], .ok, .fd 2, .bytes [1, 2, 3], .names (sortNames ["b"]), .nofd, .bool false]
+
+theorem sortNames_ab : sortNames ["a", "b"] = ["a", "b"] := List.mergeSort_of_pairwise (by decide)
+theorem sortNames_b : sortNames ["b"] = ["b"] := List.mergeSort_singleton _
+
+/-- The expected replies, with the sorted lists computed. -/
+theorem demoOut_eq : demoOut =
+    [.ok, .fd 0, .ok, .ok, .fd 1, .bytes [2, 3], .bool true, .ok, .names ["a", "b"],
+     .bytes [1, 2], .ok, .fd 2, .bytes [1, 2, 3], .names ["b"], .nofd, .bool false] := by
+  simp only [demoOut, sortNames_ab, sortNames_b]
+
+example : Ref.valid Ref.empty demoOps = true := by rfl
+example : (Ref.empty.run demoOps).1.nfds ≤ internalFd := by decide
+example : (Ref.empty.run demoOps).2 = demoOut := by rfl
+example : (DirFs.run Os.empty demoOps).2 = demoOut := by rfl
+example : (MemFs.empty.run (demoOps.map shiftOp)).2 = demoOut.map shiftOut := by rfl
+/-- The theorems apply to it. -/
+example : (DirFs.run Os.empty demoOps).2 = (Ref.empty.run demoOps).2 :=
+  dirfs_refines demoOps (by rfl) (by decide)
+example : (MemFs.empty.run (demoOps.map shiftOp)).2 = (DirFs.run Os.empty demoOps).2.map shiftOut :=
+  dirfs_memfs_agree demoOps (by rfl) (by decide)
 
 end GooseVerif.Props.C12
